@@ -1,21 +1,82 @@
 from common import Rng
 
 CONFIG = dict(
-    level_text="(filled in below)",
-    level_note="",
+    level_text="Kernel-checked Lean theorems about a hand-written model of table/src/policy.rs (conditions, AS-path patterns, "
+               "match options, statement/policy/assignment chaining, all actions, every PolicyTable CRUD call) and the AS_PATH "
+               "helpers of packet/src/bgp.rs: the master theorem that the C14 reference checker (written from the property text: "
+               "statements in order, all conditions, ANY covering prefix entry with the length in range, ANY/ALL/INVERT, first "
+               "non-pass wins, accumulated actions, referenced objects neither deleted nor changed) accepts EVERY run of the model "
+               "over all probe sets and all CRUD sequences; no panic for any AS_PATH segment structure; reference closure of the "
+               "table for all CRUD sequences; in-use objects rejected.  The model is tied to the real code by running "
+               "PolicyTable / apply_import / apply_export and the model on the same generated cases (routes decoded by the real "
+               "wire decoder) and diffing result codes, listings and every probe result, with the reference checker as oracle on "
+               "the real observations.",
+    level_note="Trusted: Lean kernel; axioms propext/Classical.choice/Quot.sound (decide +kernel for closed examples, no "
+               "native_decide); the hand-written model (checked only by the correspondence stream); harness glue (case decoding, "
+               "UPDATE framing of probe attributes, RPKI table construction, listing dump).  Uninterpreted in every theorem: the "
+               "regex engine and ext-community text form (RegexEnv).  Master theorem is `_partial` in two explicit hypotheses: no "
+               "free-form AS-path pattern (known finding F14-aspath-regex-ignored, refuted in full by C14_full_refuted) and no "
+               "well-known community NAME (case folding; correspondence only).  Modelled, not verified: see modelled_not_verified.",
     lean_modules=["Rbgp.Policy.Props"],
-    theorems=[],
+    theorems=[
+        "Rbgp.Policy.Props.eval_eq_reference",
+        "Rbgp.Policy.Props.eval_chain_eq_reference",
+        "Rbgp.Policy.Props.prefixset_match_spec",
+        "Rbgp.Policy.Props.aspath_match_total",
+        "Rbgp.Policy.Props.aspath_match_flat",
+        "Rbgp.Policy.Props.aspath_condition_total",
+        "Rbgp.Policy.Props.matchoption_spec",
+        "Rbgp.Policy.Props.first_nonpass_wins",
+        "Rbgp.Policy.Props.first_nonpass_wins_policies",
+        "Rbgp.Policy.Props.actions_accumulate",
+        "Rbgp.Policy.Props.statement_applies_iff",
+        "Rbgp.Policy.Props.crud_ref_closed",
+        "Rbgp.Policy.Props.in_use_not_deleted",
+        "Rbgp.Policy.Props.referenced_unchanged",
+        "Rbgp.Policy.Props.C14_full_refuted",
+    ],
     harness=dict(kind="pt", bin="c14"),
     profiles=["debug"],
-    n_quick=1500, n_thorough=60000, shards=12,
-    nontrivial_re=r"\(r (accept|reject|pass) \(|inuse|\(r reject|panic",
-    rule="",
-    expect_tokens=[],
-    trusted_base=[],
-    modelled_not_verified=[],
-    assumptions=[],
-    claimed=False,
-    na_reason="in progress",
+    n_quick=2400, n_thorough=120000, shards=12,
+    nontrivial_re=r"\(r (accept|reject|pass) \(|\(r reject|\(err inuse\)|panic",
+    rule="cases = (probe routes, CRUD call sequence).  Routes: IPv4/IPv6 prefixes nested in / disjoint from the set entries, "
+         "attribute vectors pushed through the real UPDATE decoder (ORIGIN, AS_PATH of every segment type incl. empty segments, "
+         "255-member segments, MED, LOCAL_PREF, COMMUNITY, EXT/LARGE communities, unknown optional transitive), local/iBGP/eBGP "
+         "sources, RPKI state none/not-found/valid/invalid.  Calls: add/replace/delete(all|partial) on the six set kinds with "
+         "nested and overlapping prefix entries (ranges below/above the entry length, inverted), anchored and free-form "
+         "AS-path / community patterns incl. invalid ones; statements from the full condition/action grammar (ANY/ALL/INVERT, "
+         "MED +-i64 extremes, prepend 0..300 incl. last-as, community add/remove/replace, next hop, local-pref, origin); "
+         "policies; import/export assignments; then 2-8 random calls aimed at the same small name space (in-use deletes, "
+         "merges, dangling names).  After EVERY call the listing is dumped and all probes are re-evaluated under both "
+         "assignments.  non-trivial = some probe was rewritten or rejected, or an in-use call was refused; distinct = distinct case line",
+    expect_tokens=["(r reject", "(r accept (", "(r pass", "(err inuse)", "(err notfound)", "(err invalid)", "(imp none)",
+                   "set prefix", "set neighbor", "set aspath", "set comm", "set ext", "set large", "(some (", "cset aspath as1 all",
+                   "invert", "(prep ", "(med mod", "(nh ", "(a 2 80 ", "(a 4 128 (v 4294967295))", "(a 4 128 (v 0))",
+                   "(a 16 192", "(a 32 192"],
+    trusted_base=["model lean/Rbgp/Policy/Model.lean of table/src/policy.rs + AsPathIter/as_path_length/as_path_prepend[_confed] of packet/src/bgp.rs",
+                  "harness/pt/src/bin/c14.rs: builds an UPDATE from the declared attributes and takes the attribute vector the real "
+                  "decoder returns (must equal the declaration, else bad-case); constructs an RpkiTable that yields the declared "
+                  "validation state (checked with RpkiTable::validate); dumps the table through iter_defined_sets/statements/"
+                  "policies/assignments sorted by name",
+                  "RegexEnv (regex crate, ext_community_to_string) is an uninterpreted parameter of every theorem; the driver runs "
+                  "with a small engine (literals . \\d * + ^ $) from which the generator draws its patterns"],
+    modelled_not_verified=[
+        "daemon-side holders of policy objects (per-peer export policy override PeerState.export_policy, the copies published in "
+        "TableManager.import_policy/export_policy, Global::{add,delete}_policy[_assignment], set_policies): not modelled in this version",
+        "free-form AS-path regex members: the reference consults them, the code does not (open finding F14-aspath-regex-ignored); "
+        "excluded from the master theorem by the explicit hypothesis Op.noAsRegex",
+        "well-known community names in parse_community (to_lowercase + table lookup): correspondence only (hypothesis Op.noWellKnown)",
+        "RpkiTable::validate: its result is an input of the model (C12 owns the classification)",
+        "IpLookupTable (treebitmap) modelled as a keyed list; prefix-set and neighbor-set elements are generated without host bits "
+        "(the crate asserts on host bits: add_defined_set/delete_defined_set panic on e.g. 10.0.0.16/24 — configuration-time, outside the statement)",
+        "IpNet::contains modelled as CIDR containment for nets without host bits",
+        "non-unicast NLRI (VPN, labeled, flowspec, EVPN, ...): Prefix condition is false for them whatever the option; AfiSafiIn only exercised for IPv4/IPv6 unicast",
+        "attribute values the API can build that the decoder cannot (attr_from_api accepts arbitrary AS_PATH segment types / Unknown{known code}: "
+        "as_path_length then hits unreachable!()) — C17 / S27 owns that obligation; probes here are decoder output",
+        "as-prepend repeat is a u32: the loop is unbounded in practice (generated <= 300)",
+        "replace_defined_set removes the old set before add_defined_set validates the new contents: a failing replace of an UNREFERENCED set deletes it (modelled as is; not a violation of the statement)"],
+    assumptions=["probe attribute vectors are values Attribute::decode produces (Spec.pathOk); the reference says nothing about others"],
+    claimed=True,
 )
 
 # ---------------------------------------------------------------- small colliding domains
@@ -363,6 +424,117 @@ def gen_case(r, tier):
     return "(case (probes %s) (ops %s))" % (" ".join(probes), " ".join(ops))
 
 
+# ---------------------------------------------------------------- malformed / adversarial stream
+def _parse(s):
+    stack, cur = [], []
+    tok = ""
+    for ch in s:
+        if ch in "() ":
+            if tok:
+                cur.append(tok); tok = ""
+            if ch == "(":
+                stack.append(cur); cur = []
+            elif ch == ")":
+                done = cur; cur = stack.pop(); cur.append(done)
+        else:
+            tok += ch
+    return cur[0]
+
+
+def _show(t):
+    return t if isinstance(t, str) else "(" + " ".join(_show(x) for x in t) + ")"
+
+
+def _paths(t, pre=()):
+    """all positions (as index tuples) of sub-terms"""
+    out = [pre]
+    if not isinstance(t, str):
+        for i, x in enumerate(t):
+            out += _paths(x, pre + (i,))
+    return out
+
+
+def _get(t, path):
+    for i in path:
+        t = t[i]
+    return t
+
+
+def _set(t, path, v):
+    if not path:
+        return v
+    return t[:path[0]] + [_set(t[path[0]], path[1:], v)] + t[path[0] + 1:]
+
+
+def _del(t, path):
+    if len(path) == 1:
+        return t[:path[0]] + t[path[0] + 1:]
+    return t[:path[0]] + [_del(t[path[0]], path[1:])] + t[path[0] + 1:]
+
+
+NUM_SUBST = ["0", "1", "2", "3", "4", "5", "24", "32", "33", "128", "129", "255", "256", "65535", "4294967295", "4294967296"]
+ATOM_SUBST = ["prefix", "neighbor", "aspath", "comm", "ext", "large", "any", "all", "invert", "t", "f", "none", "accept",
+              "reject", "pass", "imp", "exp", "ps1", "as1", "cs1", "s1", "p1", "nosuch", ".*", "*bad", "(", "x", "x0", "x00"]
+
+
+CLASSES = [["any", "all", "invert"], ["accept", "reject", "pass"], ["t", "f"], ["imp", "exp"], ["eq", "ge", "le"],
+           ["add", "remove", "replace"], ["ps1", "ps2"], ["ns1", "ns2"], ["as1", "as2"], ["cs1", "cs2"],
+           ["s1", "s2", "s3", "s4"], ["p1", "p2", "p3"], ["nf", "valid", "invalid", "none"], ["self", "peer", "unchanged"],
+           ["inc", "left", "orig", "only"], ["rinc", "rleft", "rorig", "ronly"], ["internal", "external", "local"],
+           ["set-add", "set-replace"], ["asg-add", "asg-set"], ["mod", "replace"]]
+LIST_HEADS = ("ops", "probes", "attrs")
+
+
+def mutate(r, case):
+    t = _parse(case)
+    mild = r.chance(3, 4)
+    for _ in range(1 if mild else 1 + r.below(3)):
+        ps = [p for p in _paths(t) if p]
+        p = r.pick(ps)
+        sub = _get(t, p)
+        if mild:
+            # class-preserving change of one atom, or removal / duplication of one list element
+            if isinstance(sub, str):
+                if sub.isdigit():
+                    t = _set(t, p, r.pick(NUM_SUBST))
+                else:
+                    cl = [c for c in CLASSES if sub in c]
+                    if cl:
+                        t = _set(t, p, r.pick(cl[0]))
+            else:
+                par = _get(t, p[:-1])
+                if isinstance(par, list) and par and (par[0] in LIST_HEADS or not isinstance(par[0], str)):
+                    t = _del(t, p) if r.chance(1, 2) else _set(t, p[:-1], par + [sub])
+            continue
+        k = r.below(6)
+        if k == 0:
+            t = _del(t, p)
+        elif k == 1 and isinstance(sub, str) and sub.isdigit():
+            t = _set(t, p, r.pick(NUM_SUBST))
+        elif k == 2 and isinstance(sub, str):
+            a = r.pick(ATOM_SUBST)
+            if a == "(":
+                a = "nosuch"
+            t = _set(t, p, a)
+        elif k == 3 and isinstance(sub, str) and sub.startswith("x") and len(sub) > 1:
+            t = _set(t, p, r.pick([sub[:-1], sub[:-2], sub + "00", sub[:3] + "ff" + sub[5:], "x" + "05" + sub[3:]]))
+        elif k == 4 and not isinstance(sub, str):
+            t = _set(t, p, sub + sub[-1:])      # duplicate the last element
+        else:
+            q = r.pick(ps)
+            t = _set(t, p, _get(t, q))          # graft another sub-term
+    return _show(t)
+
+
 def gen(seed, n, tier):
     r = Rng(seed * 1000003 + 14)
-    return [gen_case(r, tier) for _ in range(n)]
+    out = []
+    for _ in range(n):
+        c = gen_case(r, tier)
+        if r.chance(1, 8):
+            try:
+                c = mutate(r, c)
+            except Exception:
+                pass
+        out.append(c)
+    return out
